@@ -7,7 +7,7 @@ an occurrence of that name; exit status 0; deleting the unused definitions does 
 script (metamorphic)."""
 import re
 
-from .. import build, impl, model, planted, report, sexp
+from .. import build, coqcheck, impl, model, planted, report, sexp
 from .c11 import norm_check
 
 SHELLS = planted.SHELLS
@@ -40,6 +40,12 @@ def run(ctx, res):
     with build.Lock():
         exe = build.harness()
         binary = build.complgen()
+        # the end-to-end theorems (warning messages = rendered Spec.Warnings sets, automata independent of unused definitions) live in Props/C15b.v
+        extra = coqcheck.check_property('C15b')
+    if not extra['ok']:
+        res.violations.append(report.Violation('proof obligations of C15b no longer check',
+                                               dict(kind='proof-obligation', errors=extra['errors'][:5]), found_input=False))
+    res.extra['theorems_C15b'] = extra['theorems']
     r = ctx['rng']
     n = 60 if ctx['tier'] == 'quick' else 4000
     cases = []
